@@ -173,6 +173,30 @@ func hwChildren(id string, times int) templ.Component {
 	})
 }
 
+// hwForward is a hand-written layer that is itself given a block (which it drops) and hands
+// its own block on to inner with templ.WithChildren.
+func hwForward(inner, block templ.Component) templ.Component {
+	return templ.ComponentFunc(func(ctx context.Context, w io.Writer) error {
+		return inner.Render(templ.WithChildren(ctx, block), w)
+	})
+}
+
+// hwNonce is a hand-written layer that passes its context on with a nonce added.
+func hwNonce(inner templ.Component) templ.Component {
+	return templ.ComponentFunc(func(ctx context.Context, w io.Writer) error {
+		return inner.Render(templ.WithNonce(ctx, "n0nce"), w)
+	})
+}
+
+// hwClear is a hand-written layer that renders inner with its children cleared, the way the
+// documentation shows (ctx = templ.ClearChildren(ctx)).
+func hwClear(inner templ.Component) templ.Component {
+	return templ.ComponentFunc(func(ctx context.Context, w io.Writer) error {
+		ctx = templ.ClearChildren(ctx)
+		return inner.Render(ctx, w)
+	})
+}
+
 // hwIgnore is a hand-written callee that never looks at its children (like templ.Raw).
 func hwIgnore(id string) templ.Component {
 	return templ.ComponentFunc(func(ctx context.Context, w io.Writer) error {
@@ -302,6 +326,12 @@ func (e *Env) Build(n *Node) templ.Component {
 		return hwChildren(n.S, n.N)
 	case "hwignore":
 		return hwIgnore(n.S)
+	case "hwforward":
+		return hwForward(e.kid(n, 0), e.kid(n, 1))
+	case "hwnonce":
+		return hwNonce(e.kid(n, 0))
+	case "hwclear":
+		return hwClear(e.kid(n, 0))
 	case "usescript", "onclick", "ontwo", "oncond", "onhx", "classof", "classtwo", "classcond":
 		return e.buildC12(n)
 	}
